@@ -781,7 +781,7 @@ def js_skeleton(fn, labels):
 THEOREMS = ["direct_correct", "direct_unique", "direct_correct_ctx", "interp_sound_js", "drivers_agree",
             "desugar_once", "desugar_incdec_once", "spec_trace", "desugar_trace", "naive_rewrite_wrong",
             "names_distinct_plain", "names_fresh_plain", "renderInj_ascii", "names_distinct_plain_ascii", "render_clash",
-            "encodeIdent_ascii_id"]
+            "encodeIdent_ascii_id", "tuple_assign_counterexample", "tuple_assign_partial"]
 ENV_THEOREMS = ["reserved_covers_es", "reserved_model_exact", "reserved_misses_console", "reserved_covers_used_counterexample",
                 "reserved_covers_used_partial"]
 
